@@ -307,6 +307,7 @@ func main() {
 			hdr.Height = height
 			hdr.ProposerAddress = []byte("c13_proposer________")
 			before := supplyOf(ctx, native)
+			recsBefore := ubiJSON(app.UbiKeeper.GetUBIRecords(ctx))
 			var sBegin, sUbi sdk.Int
 			prevCtx := ctx
 			code, cls, msg := 0, "", ""
@@ -332,10 +333,15 @@ func main() {
 				sBegin, sUbi = before, before
 			}
 			ps, ys := app.DistrKeeper.GetPeriodicSnapshot(ctx), app.DistrKeeper.GetYearStartSnapshot(ctx)
-			obs := fmt.Sprintf("(BObs %d %s %s (mkSnap %s %s) (mkSnap %s %s) %s %s)", code, hx.ZInt(sBegin), hx.ZInt(sUbi), hx.Z(ps.SnapshotTime), oint(ps.SnapshotAmount),
-				hx.Z(ys.SnapshotTime), oint(ys.SnapshotAmount), ubisCoq(ctx), hx.ZInt(poolBal(ctx)))
+			regn := sdk.ZeroInt()
+			if ti := app.TokensKeeper.GetTokenInfo(ctx, native); ti != nil {
+				regn = ti.Supply
+			}
+			obs := fmt.Sprintf("(BObs %d %s %s (mkSnap %s %s) (mkSnap %s %s) %s %s %s)", code, hx.ZInt(sBegin), hx.ZInt(sUbi), hx.Z(ps.SnapshotTime), oint(ps.SnapshotAmount),
+				hx.Z(ys.SnapshotTime), oint(ys.SnapshotAmount), ubisCoq(ctx), hx.ZInt(poolBal(ctx)), hx.ZInt(regn))
 			add(fmt.Sprintf("OBlock %d", dt), obs, jop{Kind: "block", Args: map[string]interface{}{"dt": dt, "time": now, "height": height}, Res: cls, Err: msg,
 				Obs: map[string]interface{}{"supply_before": before.String(), "supply_after_inflation": sBegin.String(), "supply_after_ubi": sUbi.String(),
+					"ubi_records_before": recsBefore, "ubi_records": ubiJSON(app.UbiKeeper.GetUBIRecords(ctx)), "native_registry_supply": regn.String(),
 					"periodic_snapshot": fmt.Sprintf("%d/%s", ps.SnapshotTime, ps.SnapshotAmount), "year_snapshot": fmt.Sprintf("%d/%s", ys.SnapshotTime, ys.SnapshotAmount)}})
 		}
 		doParams := func() {
@@ -353,8 +359,7 @@ func main() {
 			add(fmt.Sprintf("OParams %s %s %s", decRaw(p.InflationRate), hx.ZU(p.InflationPeriod), decRaw(p.MaxAnnualInflation)), fmt.Sprintf("(PObs 0 %s)", hx.ZInt(supplyOf(ctx, native))),
 				jop{Kind: "params", Args: map[string]interface{}{"inflation_rate": rate, "inflation_period": period, "max_annual_inflation": maxann}, Res: "ok"})
 		}
-		doHardcap := func() {
-			v := []uint64{0, 1, 6000000, 100, 1 << 40, 1<<64 - 1, 493150, 12000000}[hr.Intn(8)]
+		doHardcapV := func(v uint64) {
 			p := *app.CustomGovKeeper.GetNetworkProperties(ctx)
 			p.UbiHardcap = v
 			code, cls, msg := atomic(func(c sdk.Context) error { return app.CustomGovKeeper.SetNetworkProperties(c, &p) })
@@ -363,6 +368,8 @@ func main() {
 			}
 			add(fmt.Sprintf("OHardcap %s", hx.ZU(v)), fmt.Sprintf("(PObs 0 %s)", hx.ZInt(supplyOf(ctx, native))), jop{Kind: "hardcap", Args: map[string]interface{}{"ubi_hardcap": v}, Res: cls, Err: msg})
 		}
+		doHardcap := func() { doHardcapV([]uint64{0, 1, 6000000, 100, 1 << 40, 1<<64 - 1, 493150, 12000000}[hr.Intn(8)]) }
+		var doUbiUpsertArgs func(name int, amount, period, start, end uint64, pool int)
 		doUbiUpsert := func() {
 			name := 1 + hr.Intn(4)
 			if hr.Chance(10) {
@@ -395,6 +402,9 @@ func main() {
 			if hr.Chance(8) {
 				pool = 1
 			}
+			doUbiUpsertArgs(name, amount, period, start, end, pool)
+		}
+		doUbiUpsertArgs = func(name int, amount, period, start, end uint64, pool int) {
 			code, cls, msg := atomic(func(c sdk.Context) error {
 				return ubiH.Apply(c, 1, &ubitypes.UpsertUBIProposal{Name: ubiNames[name], DistributionStart: start, DistributionEnd: end, Amount: amount, Period: period, Pool: poolNames[pool]}, sdk.ZeroDec())
 			})
@@ -429,6 +439,7 @@ func main() {
 			}
 			return []sdk.Dec{sdk.NewDecWithPrec(1, 1), sdk.NewDecWithPrec(2, 1), sdk.NewDecWithPrec(5, 2), sdk.NewDecWithPrec(11, 1), sdk.NewDecWithPrec(-1, 1)}[hr.Intn(5)]
 		}
+		var doUpsertMsgArgs func(actor, d int, supply, capv sdk.Int, owner int, noedit bool, fee, stake sdk.Dec)
 		doUpsertMsg := func() {
 			d := pickDenom()
 			actor := 1 + hr.Intn(4)
@@ -460,6 +471,10 @@ func main() {
 			if hr.Chance(70) && !fee.IsPositive() {
 				fee = sdk.NewDec(1)
 			}
+			doUpsertMsgArgs(actor, d, supply, capv, owner, noedit, fee, stake)
+		}
+		doUpsertMsgArgs = func(actor, d int, supply, capv sdk.Int, owner int, noedit bool, fee, stake sdk.Dec) {
+			cur := app.TokensKeeper.GetTokenInfo(ctx, denoms[d])
 			perm := app.CustomGovKeeper.CheckIfAllowedPermission(ctx, actors[actor], govtypes.PermUpsertTokenInfo)
 			code, cls, msg := atomic(func(c sdk.Context) error {
 				_, err := tms.UpsertTokenInfo(sdk.WrapSDKContext(c), &tokenstypes.MsgUpsertTokenInfo{Proposer: actors[actor], Denom: denoms[d], TokenType: "adr20", FeeRate: fee, FeeEnabled: true,
@@ -499,6 +514,7 @@ func main() {
 			}
 			return sdk.NewInt(amtChoices[hr.Intn(len(amtChoices))])
 		}
+		var doMintIssueArgs func(actor, d int, amt sdk.Int)
 		doMintIssue := func(d int) {
 			actor := 1 + hr.Intn(4)
 			cur := app.TokensKeeper.GetTokenInfo(ctx, denoms[d])
@@ -507,7 +523,10 @@ func main() {
 					actor = int(id)
 				}
 			}
-			amt := pickAmt(d)
+			doMintIssueArgs(actor, d, pickAmt(d))
+		}
+		doMintIssueArgs = func(actor, d int, amt sdk.Int) {
+			cur := app.TokensKeeper.GetTokenInfo(ctx, denoms[d])
 			code, cls, msg := atomic(func(c sdk.Context) error {
 				_, err := lms.MintIssueTx(sdk.WrapSDKContext(c), &layer2types.MsgMintIssueTx{Sender: actors[actor].String(), Denom: denoms[d], Amount: amt, Receiver: actors[actor].String()})
 				return err
@@ -558,6 +577,33 @@ func main() {
 		}
 
 		nops := 8 + hr.Intn(22)
+		// the first histories replay the witnesses of the refuted theorems (Properties/C13.v) on the real code
+		switch hi {
+		case 0: // native_minted_only_by_inflation_or_ubi_refuted: a stranger mints the native token through layer2
+			kind, nops = "witness:mint_issue_native", 0
+			doBlock(5)
+			doMintIssueArgs(3, 0, sdk.NewInt(1000))
+			doBlock(5)
+		case 1: // ubi_overflow_refuted: amount * 31556952 wraps to 0 in uint64, the record passes the hard cap
+			kind, nops = "witness:ubi_u64_wrap", 0
+			doHardcapV(7000000)
+			doUbiUpsertArgs(1, 1<<63, 2592000, 0, 0, 0)
+		case 2: // owner_cannot_raise_or_remove_cap_refuted: negative cap passes both guards; the old cap is then exceeded
+			kind, nops = "witness:negative_cap", 0
+			doUpsertMsgArgs(1, 4, sdk.ZeroInt(), sdk.NewInt(1000), 1, false, sdk.NewDec(1), sdk.ZeroDec())
+			doMintIssueArgs(1, 4, sdk.NewInt(1000))
+			doMintIssueArgs(1, 4, sdk.NewInt(1))
+			doUpsertMsgArgs(1, 4, sdk.ZeroInt(), sdk.NewInt(1001), 1, false, sdk.NewDec(1), sdk.ZeroDec())
+			doUpsertMsgArgs(1, 4, sdk.ZeroInt(), sdk.NewInt(0), 1, false, sdk.NewDec(1), sdk.ZeroDec())
+			doUpsertMsgArgs(1, 4, sdk.ZeroInt(), sdk.NewInt(-1), 1, false, sdk.NewDec(1), sdk.ZeroDec())
+			doMintIssueArgs(1, 4, sdk.NewInt(5000))
+		case 3: // ubi period wrap: DistributionLast + Period overflows uint64, the record is due in every block
+			kind, nops = "witness:ubi_period_wrap", 0
+			doHardcapV(7000000)
+			doUbiUpsertArgs(2, 3, 1<<64-1, uint64(now), 0, 0)
+			doBlock(5)
+			doBlock(5)
+		}
 		for i := 0; i < nops; i++ {
 			x := hr.Intn(100)
 			switch flavour {
@@ -635,7 +681,7 @@ func main() {
 
 	var f strings.Builder
 	f.WriteString("(* written by /verif/harness/cmd/c13 -- observations of the real code *)\n")
-	f.WriteString("From Sekai Require Import Base.Prelude Base.Dec Model.Monetary Model.C13Check.\n")
+	f.WriteString("From Sekai Require Import Base.Prelude Base.Dec Model.Monetary Model.C13Check Gen.MintBurn.\n")
 	f.WriteString(fmt.Sprintf("Definition t0 : Z := %d.\n", T0))
 	f.WriteString("Definition reg0 : list (Z * tok) := " + regCoq(base) + ".\n")
 	f.WriteString("Definition ubis0 : list ubi := " + ubisCoq(base) + ".\n")
@@ -643,7 +689,7 @@ func main() {
 	f.WriteString(fmt.Sprintf("Definition genesis_supply : Z := %s.\n", hx.ZInt(genesisSupply)))
 	out.WriteFile("pre.v", f.String())
 	out.WriteFile("cases.txt", strings.Join(lines, "\n")+"\n")
-	out.WriteJSON("meta.json", map[string]string{"case_type": "c13_case", "mismatch_fn": "c13_mismatches t0 reg0 ubis0 pools0", "violation_fn": "c13_violations t0 reg0 ubis0"})
+	out.WriteJSON("meta.json", map[string]string{"case_type": "c13_case", "mismatch_fn": "c13_mismatches t0 reg0 ubis0 cap_guard_strict pools0", "violation_fn": "c13_violations t0 reg0 ubis0"})
 	out.WriteJSON("cases.json", js)
 	out.WriteJSON("dist.json", map[string]interface{}{"seed": seed, "histories": len(js), "ops_by_kind_and_result": dist,
 		"denoms": denoms, "ubi_names": ubiNames, "pools": poolNames})
